@@ -176,13 +176,25 @@ class PyModule(pyobjects.PyModule):
             if syntax_errors:
                 raise
             else:
-                source = "\n"
+                # The module is analysed as if it were empty, but its text is
+                # still its text: what rewrites the module starts from it.
+                source = self._get_unparsed_source(source, resource)
                 node = ast.parse("\n")
         self.source_code = source
         self.star_imports = []
         self.visitor_class = _GlobalVisitor
         self.coding = fscommands.read_str_coding(self.source_code)
         super().__init__(pycore, node, resource)
+
+    def _get_unparsed_source(self, source_code, resource):
+        try:
+            if source_code is None:
+                source_code = resource.read_bytes()
+            if isinstance(source_code, bytes):
+                source_code, _ = fscommands.file_data_to_unicode(source_code)
+            return source_code
+        except (OSError, UnicodeError):
+            return "\n"
 
     def _init_source(self, pycore, source_code, resource):
         filename = "string"
